@@ -25,3 +25,14 @@ Definition required_sorted_sites : list (text * text * text) :=
 Definition is_sorted_site (r : text * text * text) (s : site) : bool :=
   text_eqb (s_file s) (fst (fst r)) && text_eqb (s_fn s) (snd (fst r)) && text_eqb (s_iter s) (snd r)
   && (s_class s =? 1).
+
+(* modules the transpiler may import: pure standard-library helpers and its own IR module *)
+Definition allowed_modules : list text :=
+  [ txt "__future__"%string; txt "ast"%string; txt "operator"%string; txt "re"%string; txt "typing"%string;
+    txt "dataclasses"%string; txt ".ast"%string ].
+
+(* the verification hook (add-only, REDUINO_VERIF=1) reads its switch from the environment *)
+Definition hook_fn : text := txt "_verif_note_ignored"%string.
+
+Definition import_accounted (i : imp) : bool :=
+  tmem (i_module i) allowed_modules || (text_eqb (i_module i) (txt "os"%string) && text_eqb (i_fn i) hook_fn).
